@@ -118,7 +118,7 @@ def check_field_semantics(ctx, rid_round="R3", rid_prec="R4", rid_defaults="R5")
                     return f"spin polarisation {sp} gives multiplicity {got!r}, expected {want}"
             # derived values: with orbitals the spin polarisation / electron count are those of the orbitals, with core
             # charges the charge is their sum minus the electrons -- whatever the hidden stored values say
-            mo = Rec(mo_cls, spinpol=2.0, nelec=8.0)
+            mo = Rec(mo_cls, kind="unrestricted", norba=5, norbb=5, occs=np.array([1.0] * 5 + [1.0, 1.0, 1.0, 0.0, 0.0]), coeffs=None, energies=None, irreps=None, occs_aminusb=None)  # 8 electrons, spin polarisation 2
             d = fields_of(short, wi, mk(mo=mo, spinpol=None, charge=None, _atcorenums=np.array([8.0, 1.0, 1.0])), {})
             if d.get("spinmult") != 3:
                 return f"orbitals with spin polarisation 2 give multiplicity {d.get('spinmult')!r}, expected 3 (the stored `_spinpol` is not the spin polarisation when orbitals are present)"
